@@ -1260,6 +1260,8 @@ def run_impl(case):
         viol.append(f"{tag}: request\n{text}\non {sorted(map(tuple, case['init']))} (api {api}, union {case['union']}) "
                     f"left quads {show_quads(quads)} but the Update semantics give {show_quads(canon_int(want))}"
                     f" (extra {extra}, missing {missing})")
+    if not case["init"] and case.get("reg") and case["ops"][0]["k"] in ("drop", "clear"):
+        info["drop_or_clear_on_tripleless_dataset_with_registered_graphs"] = 1
     stats = {"ops": len(case["ops"]), "prepared_update_object": int(bool(case.get("prep"))), "api_" + api: 1, "union_" + str(bool(case["union"])): 1, "err_" + err: 1,
              "minted": len({x for q in quads for x in q if x >= 1000}), **info}
     if case.get("runs", 1) > 1:
@@ -1490,6 +1492,12 @@ def _gen_case(rng, tier, i):
         q[3] = rng.choice([0] + filled)
         if q not in init:
             init.append(q)
+
+    empty_ds = False
+    if not single and present and rng.random() < 0.04:
+        # a dataset WITHOUT a single triple but with registered (empty) graphs — `len(dataset) == 0`, the dataset object is
+        # falsy — on which DROP / CLEAR NAMED | ALL still have graphs to remove (systematic mutant C10-8: `not ctx._dataset`)
+        init, cyc, reg, filled, empty_ds = [], None, list(present[-2:]), [], True
 
     def gname(allow_default=True):
         pool = list(anyg) + ([0, 0] if allow_default else [])
@@ -1810,6 +1818,8 @@ def _gen_case(rng, tier, i):
                 "filter": flt, "split": split, "wmode": wmode}
 
     ops = [gen_op() for _ in range(rng.choice([1, 1, 1, 2, 2, 3, 4]))]
+    if empty_ds:
+        ops[0] = {"k": rng.choice(["drop", "drop", "clear"]), "silent": rng.random() < 0.3, "t": rng.choice(["NAMED", "ALL"])}
     if any(o["k"] == "load" for o in ops):
         for o in ops:                             # SPARQL_LOAD_GRAPHS will be on: no USING (it would fetch empty graphs)
             if o["k"] == "modify":
